@@ -24,20 +24,6 @@ type FaultInput struct {
 	Heal   WriteOut   `json:"heal"`
 }
 
-// ForksDay: a failing ReadDir of the month directory while the day directory exists makes the writer create
-// a second directory for the same day; that state is outside the model (see NOTES.md) and is not generated
-func ForksDay(ops []Op, k int) bool {
-	if k >= len(ops) || ops[k].Kind != "openr" || ops[k].A.Kind != "month" || !ops[k].OK {
-		return false
-	}
-	for _, o := range ops {
-		if o.Kind == "mkdir" && o.A.Kind == "day" {
-			return false
-		}
-	}
-	return true
-}
-
 // CalibrateOne traces write-out number j of hist fault-free on a COPY of the tree
 func (e Env) CalibrateOne(dir, root, hf string, hist []WriteOut, j int) ([]Op, error) {
 	cp := filepath.Join(dir, "calcopy")
@@ -84,7 +70,6 @@ func (e Env) RunFaultCase(in FaultInput) (*vhlib.Case, error) {
 		tree     *Tree
 		rd, rd2  ObsRead
 		healOK   bool
-		excluded bool
 		effK     []int
 	}
 	res, err := retry(4, func() (*out, error) {
@@ -118,9 +103,6 @@ func (e Env) RunFaultCase(in FaultInput) (*vhlib.Case, error) {
 			k := f.K % len(cal) // positions beyond this write-out's own call list wrap around
 			o.effK = append(o.effK, k)
 			f.K = k
-			if ForksDay(cal, f.K) {
-				o.excluded = true
-			}
 			inject := fmt.Sprintf("%s:error=%s:when=%d", cal[f.K].Name, f.Errno, cal[f.K].Ord)
 			tr, err := e.RunTraced(root, hf, all, j, j+1, inject, fmt.Sprintf("fault%d", i))
 			if err != nil {
@@ -177,9 +159,6 @@ func (e Env) RunFaultCase(in FaultInput) (*vhlib.Case, error) {
 	c.Tags = []string{fmt.Sprintf("faults-%d", len(in.Faults))}
 	for i, f := range in.Faults {
 		c.Tags = append(c.Tags, "fault-at-"+res.kinds[i], strings.ToLower(f.Errno))
-	}
-	if res.excluded {
-		c.Tags = append(c.Tags, "forks-day")
 	}
 	c.Nontrivial = true
 	return c, nil
